@@ -238,11 +238,42 @@ class FD:
         b = self.sym.lookup(mod.name, name)
         seen = 0
         while b is not None and b.kind == 'importfrom' and b.target in self.sym.repo.modules and seen < 6:
+            sub = '%s.%s' % (b.target, b.attr)
+            if sub in self.sym.repo.modules and self.sym.lookup(b.target, b.attr) is None:
+                # `from pedal.sandbox import mocked`: a sub-module
+                v = ModRef(self.sym.repo.modules[sub])
+                self._modcache[key] = v
+                return v
             mod = self.sym.repo.modules[b.target]
             b = self.sym.lookup(b.target, b.attr)
             seen += 1
         if b is None:
             return _MISSING
+        if b.kind == 'import' and b.target in self.sym.repo.modules and getattr(b.node, 'names', None) and any(
+                a.asname == name and a.name == b.target for a in b.node.names):
+            v = ModRef(self.sym.repo.modules[b.target])     # `import pedal.sandbox.mocked as mocked`
+            self._modcache[key] = v
+            return v
+        if b.kind == 'class' and isinstance(b.node, ast.ClassDef):
+            cls, cmod = b.node, b.module
+
+            def construct(*args, **kwargs):
+                # a pedal class the harness did not stub: an instance whose methods are the class's own,
+                # initialised by interpreting its constructor
+                o = Obj(cls.name)
+                o.attrs['__classdef__'] = cls
+                init = self.class_method(o, '__init__')
+                if init is not None:
+                    self._mods.append(cmod)
+                    try:
+                        init(*args, **kwargs)
+                    finally:
+                        self._mods.pop()
+                return o
+            construct._fd_callable = True
+            construct._fd_class = cls
+            self._modcache[key] = construct
+            return construct
         if b.kind == 'func' and isinstance(b.node, ast.FunctionDef):
             fn = b.node
 
@@ -332,6 +363,8 @@ class FD:
             if isinstance(v, (int, float, str)):
                 return v
         base = self.eval(e.value, env)
+        if isinstance(base, ModRef):
+            return self.modref_attr(base, e.attr)
         if isinstance(base, Obj):
             if e.attr in base.attrs:
                 return base.attrs[e.attr]
@@ -904,10 +937,29 @@ class FD:
             self.call_function(methods['__init__'], list(args), kwargs or {}, bound_self=obj)
         return obj
 
+    def modref_attr(self, ref, attr):
+        self._mods.append(ref.mod)
+        try:
+            v = self.module_name(attr)
+        finally:
+            self._mods.pop()
+        if v is _MISSING:
+            raise Inconclusive('fdeval: %s.%s' % (ref.mod.name, attr))
+        return v
+
     def call_method(self, recv, attr, args, kwargs=None):
         kwargs = kwargs or {}
         if attr in self.methods:
             return self.methods[attr](recv, *args, **kwargs)
+        if isinstance(recv, ModRef):
+            f = self.modref_attr(recv, attr)
+            if callable(f):
+                self._mods.append(recv.mod)
+                try:
+                    return f(*args, **kwargs)
+                finally:
+                    self._mods.pop()
+            raise Raised('TypeError', '%s.%s is not callable' % (recv.mod.name, attr))
         if isinstance(recv, ClassObj) and ('classmethod:' + attr) in recv.attrs:
             return self.call_function(recv.attrs['classmethod:' + attr], list(args), kwargs, bound_self=recv)
         if isinstance(recv, Obj):
@@ -1329,6 +1381,16 @@ class FD:
 
 _BUILTIN_TYPES = {'int': int, 'float': float, 'str': str, 'bool': bool, 'list': list, 'tuple': tuple,
                   'dict': dict, 'set': set, 'frozenset': frozenset, 'complex': complex, 'bytes': bytes, 'Ellipsis': Ellipsis}
+
+
+class ModRef:
+    """A pedal module used as a value (`from pedal.sandbox import mocked`; mocked.X is looked up in that module)."""
+
+    def __init__(self, mod):
+        self.mod = mod
+
+    def __repr__(self):
+        return '<module %s>' % self.mod.name
 
 
 class _Lit(ast.expr):
